@@ -13,7 +13,7 @@ func init() {
 		ID:    "C04",
 		Level: "exploration",
 		Rule: "core (seed independent): all ordered pairs and triples of 16 message kinds x every legal running-status elision subset x one real-time byte at every position (and none) x every single split point (and unsplit), " +
-			"observed at drivers.Reader.EachMessage (exact time stamps) and at midi.ListenTo on a testdrv loopback; plus seeded random sequences (<= 40 messages) x 4 chunkings x buffer sizes {4,16,default}. " +
+			"observed at drivers.Reader.EachMessage (exact time stamps) and at midi.ListenTo on a testdrv loopback; plus a sweep of sysex total lengths (every length up to 4200, windows around every multiple of 1024 beyond; thorough: every length) under buffer sizes {default, 1025, 1500, 2048, 4096, 5000, 8192, 20000}; plus seeded random sequences (<= 40 messages) x 4 chunkings x buffer sizes {4,16,default}. " +
 			"distinct = distinct (byte stream, chunking, config) by content hash; non-trivial = at least one message is delivered and compared (content, order, completing chunk, time stamp)",
 		Assumptions: []string{
 			"ground truth is the generator's own message list with the index of each completing byte (independent of the library and of the reference receiver, which is run as a cross-check of the generator)",
@@ -22,7 +22,7 @@ func init() {
 			"testdrv time stamps carry one constant offset per session (Listen stamps the real clock, Sleep moves a virtual one): the monitor requires one offset in [-60 s, 0] consistent with every delivery; exact stamps are decided at the drivers.Reader level",
 			"F8..FF are all treated as real-time (delivered as one-byte messages)",
 		},
-		Require: []string{"runs_l1", "runs_l2", "elisions", "rt_inside_message", "rt_inside_sysex", "sysex_exact_buffer", "split_inside_message", "deliveries_checked", "generator_crosschecks"},
+		Require: []string{"runs_l1", "runs_l2", "elisions", "rt_inside_message", "rt_inside_sysex", "sysex_exact_buffer", "split_inside_message", "deliveries_checked", "generator_crosschecks", "sysex_sweep_lengths"},
 		Run:     runC04,
 	})
 }
@@ -250,6 +250,59 @@ func runC04(c *mon.Ctx) {
 		k.core(kinds, c.Thorough() && i%4 == 0, nil)
 	})
 	c.MarkExhaustive("all ordered triples of 16 message kinds x legal elision subsets x one real-time byte at every position x every single split point (drivers.Reader level)")
+
+	// ---- sysex length sweep under large configured buffers: every total length up to the buffer
+	// size must be delivered (growth steps, pools and copies have alignment windows)
+	bufs := []uint32{0, 1025, 1500, 2048, 4096, 5000, 8192, 20000}
+	type sweepCase struct {
+		buf uint32
+		n   int
+	}
+	var sweep []sweepCase
+	for _, b := range bufs {
+		lim := int(b)
+		if b == 0 {
+			lim = 1024
+		}
+		for n := 2; n <= lim; n++ {
+			dense := n <= 4200 || c.Thorough()
+			near := (n%1024) <= 20 || (n%1024) >= 1004 || n >= lim-3
+			if dense || near {
+				sweep = append(sweep, sweepCase{b, n})
+			}
+		}
+	}
+	c.Each("sysex-length-sweep", int64(len(sweep)), func(i int64, r *mon.Rand) {
+		sc := sweep[i]
+		sx := make([]byte, sc.n)
+		sx[0] = 0xF0
+		for j := 1; j < sc.n-1; j++ {
+			sx[j] = byte(j*31+sc.n) & 0x7F
+		}
+		sx[sc.n-1] = 0xF7
+		msgs := [][]byte{{0x90, 0x40, 0x7F}, sx, {0x80, 0x40, 0x00}, {0xF8}}
+		w := gen.Serialize(nil, msgs, gen.SerOpts{})
+		cfg := liveCfg{sysex: true, clock: true, sense: true, buf: sc.buf}
+		label := fmt.Sprintf("sysex of %d bytes, SysExBufferSize %d", sc.n, sc.buf)
+		k.check(w, nil, []int32{9}, cfg, i%64 == 0, label)
+		L := len(w.Bytes)
+		cut := 1 + r.Intn(L-1)
+		k.check(w, []int{cut}, []int32{2, 3}, cfg, false, label)
+		var cuts []int
+		for p := 256; p < L; p += 256 {
+			cuts = append(cuts, p)
+		}
+		dl := make([]int32, len(cuts)+1)
+		for j := range dl {
+			dl[j] = int32(j % 4)
+		}
+		k.check(w, cuts, dl, cfg, false, label)
+		c.Count("sysex_sweep_lengths", 1)
+		if sc.n == cfg.bufSize() {
+			c.Count("sysex_exact_buffer", 1)
+		}
+		c.Enumerated(1)
+	})
 
 	c.Each("random", c.N(20_000, 3_000_000), func(i int64, r *mon.Rand) {
 		cfg := liveCfg{sysex: true, clock: true, sense: true, buf: uint32(r.Pick(4, 16, 0))}
